@@ -338,7 +338,11 @@ func (s *Scen) contribStep(m *contribMsg) *Step {
 	cond["selection_proof"] = m.selOK
 	cond["outer_signature"] = m.outOK
 	cond["aggregate_signature"] = m.aggSigOK
-	return &Step{Topic: "contrib", Desc: m.desc, Variant: m.variant, Cond: cond,
+	bnd := ""
+	if m.desc == "honest" && m.subIndex == syncCommitteeSubnetCount-1 {
+		bnd = "subcommittee_index=count-1"
+	}
+	return &Step{Topic: "contrib", Desc: m.desc, Variant: m.variant, Bnd: bnd, Cond: cond,
 		Key: map[string][]string{"contrib": {keySync(m.slot, m.aggregator, m.subIndex)}}, Now: m.now,
 		Run: func(b *Backend) gossipval.GossipValidatorResult {
 			_, res := gossipval.ValidateSyncContribAndProof(context.Background(), signed, b)
